@@ -136,8 +136,8 @@ def run_job(job):
                 "cov": [[float(x) for x in row] for row in nxt.covariance.data],
                 "inputs_unchanged": bool(np.array_equal(snap[0], state.data) and np.array_equal(snap[1], cov.data)
                                          and np.array_equal(snap[2], control.data) and np.array_equal(snap[3], ekf.process_noise)),
-                "repeat_identical": bool(np.array_equal(nxt.state.data, again.state.data)
-                                         and np.array_equal(nxt.covariance.data, again.covariance.data)),
+                "repeat_identical": bool(np.array_equal(nxt.state.data, again.state.data, equal_nan=True)
+                                         and np.array_equal(nxt.covariance.data, again.covariance.data, equal_nan=True)),
             }
         except Exception as e:  # noqa
             r["predict"] = {"_raised": type(e).__name__ + ": " + str(e)[:300]}
@@ -190,8 +190,8 @@ def run_job(job):
                 inn_a = ekf.innovations[key].copy() if key in ekf.innovations else None
                 uc = ekf.sensor_model(st2, cv2, sensor_key=key, sensor_reading=ekf.make_reading(key, data=vals_o))
                 inn_c = ekf.innovations[key].copy() if key in ekf.innovations else None
-                rec["alias_consistent"] = bool(np.array_equal(ua.state.data, uc.state.data) and np.array_equal(ua.covariance.data, uc.covariance.data)
-                                               and (inn_a is None) == (inn_c is None) and (inn_a is None or np.array_equal(inn_a, inn_c)))
+                rec["alias_consistent"] = bool(np.array_equal(ua.state.data, uc.state.data, equal_nan=True) and np.array_equal(ua.covariance.data, uc.covariance.data, equal_nan=True)
+                                               and (inn_a is None) == (inn_c is None) and (inn_a is None or np.array_equal(inn_a, inn_c, equal_nan=True)))
                 rec["alias"] = {"object": [float(v) for v in ua.state.data[:, 0]], "copy": [float(v) for v in uc.state.data[:, 0]],
                                 "reading_values": [float(v) for v in vals_o[:, 0]]}
                 r["own_readings"][key] = rec
